@@ -33,6 +33,7 @@ structure Builder where
   proxyNetwork : String := ""                      -- proxy.Metadata.Network            (Net.lean)
   proxyV4      : Bool := true                      -- proxy.SupportsIPv4()              (Net.lean)
   proxyV6      : Bool := false                     -- proxy.SupportsIPv6()              (Net.lean)
+  mtlsOff      : Bool := false                     -- a PeerAuthentication disables mTLS for the endpoints (Net.lean)
   deriving Repr, Inhabited
 
 /-- `labels.Instance.SubsetOf`: every subset label is on the endpoint with the same value. -/
